@@ -322,6 +322,7 @@ func init() {
 		Real:      realFullStack,
 		Stub:      append(append([]string{}, stubFullStack...), "key locks: channel-based shadow of sync.Mutex/RWMutex whose grants are kernel events"),
 		Assume:    []string{"porcupine v1.3.0 decides linearizability of the recorded histories; Unknown (timeout) is counted, never reported"},
+		RaceTest:  "TestRaceLocked",
 		RunsQuick: 4000, RunsThorough: 120000,
 	})
 }
